@@ -21,6 +21,10 @@ Bounded exhaustive exploration of boot_noise_ceiling / cv_noise_ceiling / pool_r
   (eval_fixed and crossval are covered above) per OBSERVED resample (recording wrappers around
   bootstrap_sample* / sets_k_fold in inference.evaluate, draws enumerated through the RNG environment)
   with rdm descriptor groups that hold several RDMs;
+* stacks of 34-40 RDMs in 20-24 descriptor groups with string / float / spread-int labels (sizes
+  at which numpy changes its set-membership algorithm);
+* pattern folds over descriptors that do not ascend along the conditions, and objects re-ordered in
+  place before the call;
 * the other measures the routines accept (spearman, kendall, tau-b, tau-a; euclid / neg_riem_dist in
   pool_rdm): structural clauses only, pool_rdm of both modules against the reference pool.
 
@@ -113,6 +117,15 @@ BOUNDS = {
                                'conditions; every draw history with <= 1 non-default answer for one method per setting, the '
                                'all-default history for cosine, corr, rho-a, spearman; every stored per-resample bound against '
                                'the reference leave-one-group-out (or cross-validated) ceiling of the OBSERVED resample',
+        'large stacks': '34-40 RDMs in 20 / 22 / 24 descriptor groups of 1-2 RDMs (members never adjacent) with string, '
+                        'non-integral float and widely spread integer labels, n_cond 4-5: boot_noise_ceiling (all 7 '
+                        'reference measures, a NaN mask), sets_leave_one_out_rdm structure + leak, cv_noise_ceiling on '
+                        'sets_leave_one_out_rdm / sets_k_fold_rdm (k 2, 3, 7; per fold) and through crossval',
+        'pattern descriptor orders': 'folds over a pattern descriptor that does not ascend along the conditions: unique '
+                                     'non-alphabetical strings, interleaved category labels (6-12 conditions), and objects '
+                                     're-ordered in place before the call (reorder, sort_by(reindex=False)); sets_k_fold, '
+                                     'sets_random, sets_k_fold_pattern, sets_of_k_pattern, sets_leave_one_out_pattern; '
+                                     'random=False and every shuffle with <= 1 non-default answer; every fold on its own',
         'call sequences': 'every ordered pair of the 5 methods on ONE RDMs object through boot_noise_ceiling, '
                           'cv_noise_ceiling, eval_fixed, crossval (n_rdm 2-4, n_cond 3-4, 2 fills); every '
                           'noise-ceiling / pool_rdm / crossval call of the whole check leaves its arguments bit-identical'},
@@ -127,6 +140,8 @@ BOUNDS = {
         'k_fold with many groups': 'as quick, shuffled order for every (k_rdm, n_groups), 6 fills',
         'other accepted measures': 'as quick with 3 fills',
         'evaluation routines': 'as quick with <= 2 non-default answers (eval_dual_bootstrap: 1)',
+        'large stacks': 'as quick with 2 fills and every measure on every generator',
+        'pattern descriptor orders': 'as quick, shuffles for every variant',
         'call sequences': 'as quick with 4 fills'},
 }
 
